@@ -121,3 +121,32 @@ def lookup(table, assignment):
         if ok:
             vals.append(val)
     return vals
+
+
+def lookup_by_reachability(body, op, assignment):
+    """Values of the constant definitions feeding `op` that are reachable when the enum places named in
+    `assignment` ({field name: variant name}) hold those variants: switch edges on those places that contradict
+    the assignment are pruned, everything else is followed (exact for the finitely many assignments; handles
+    or-patterns and tuple matches, where no single edge dominates an arm)."""
+    prog = body.prog
+    cfg = body.cfg
+    dead = set()
+    for (edge, place, ty, val, is_otherwise) in enum_switch_edges(body):
+        fields = [e.get("n") for e in place.get("p", []) if e["k"] == "field"]
+        name = fields[-1] if fields else "_%d" % place["l"]
+        if name not in assignment:
+            continue
+        av = all_variants(prog, ty)
+        if av is None:
+            continue
+        want = [d for d, n in av if n == assignment[name]]
+        if not want:
+            continue
+        w = want[0]
+        if is_otherwise:
+            if w in val:
+                dead.add(edge)
+        elif val != w:
+            dead.add(edge)
+    reach = cfg.reachable_from([0], avoid_edges=dead)
+    return [v for blk, v in constant_defs(body, op) if blk in reach]
